@@ -88,7 +88,7 @@ Section NumRun.
   Proof. intros b Hb. apply Hincl. unfold merged in Hb. apply filter_In in Hb as [Hb _]. exact Hb. Qed.
 
   Lemma Hstartle : exists b, In b canon /\ bnum b <= start.
-  Proof. destruct Hstartblk as (b0 & H1 & H2). exists b0. split; [exact H1 | lia]. Qed.
+  Proof. clear - Hstartblk. destruct Hstartblk as (b0 & H1 & H2). exists b0. split; [exact H1 | lia]. Qed.
 
   Lemma run_files_num : run_files c start merged_end merged forked = (map fev D, fend).
   Proof. unfold run_files. rewrite Hmode. reflexivity. Qed.
@@ -231,7 +231,7 @@ Section NumRun.
     exists J, sfold [] (filter is_nu out) = Some J /\
       stop_reached c canon merged start out J.
   Proof.
-    intros Hd EX Hns Hs Hle out.
+    clear Hmode. intros Hd EX Hns Hs Hle out.
     destruct (stops_true c e Hs) as (Hp & H0 & Hge & Hfst).
     pose proof HcU as HcU. pose proof (lnk_of_chain_ok canon Hchain) as Hcl. pose proof Hstartle as Hsl.
     (* the stacks before and after e *)
@@ -298,7 +298,7 @@ Section NumRun.
     (forall b, In b canon -> bnum b <> j_stop c) /\
     D = filter (fun b => (start <=? bnum b) && (bnum b <? j_stop c)) merged.
   Proof.
-    intros Hrej Hfe Hns.
+    clear Hmode. intros Hrej Hfe Hns.
     assert (E0 : j_stop c <> 0).
     { intros E. unfold fend in Hfe. rewrite E in Hfe. discriminate. }
     assert (Hle : (j_stop c / j_bundle c + 1) * j_bundle c <= merged_end).
